@@ -17,6 +17,7 @@ mod query;
 mod test;
 
 pub use def::{DatePattern, Def, DefEntry, Defs, ExprString, Property};
+pub(crate) use expr::escape_quote;
 pub use expr::{Expr, Precedence};
 pub use query::{Conversion, Query};
 
